@@ -275,11 +275,6 @@ func (s *Solver) CheckEval(ctx *Ctx, asserts []*Term, wantModel bool, evals []*T
 			as = append(as, a)
 		}
 	}
-	if s.axiomsN < len(ctx.Axioms) {
-		// axioms live at the base level
-		s.popTo(0)
-		s.syncAxioms(ctx)
-	}
 	for _, a := range as {
 		s.define(ctx, a)
 	}
